@@ -401,3 +401,16 @@ package wire
 //@   ensures [array] implies(result1 == nil, samearray(result0, b) || isfresh(result0))
 //@   ensures [in-place] implies(result1 == nil && len(result0) <= cap(b), samearray(result0, b) && cap(result0) == cap(b))
 //@   modifies b[*]
+
+// ---------------- uQUIC: own view of the spec's transport parameters (C11, C12) ----------------
+//@ extern (tps tls.TransportParameters) Marshal
+//@   modifies nothing
+
+//@ func (tp *TransportParameters) PopulateFromUQUIC
+//@   props C11 C12
+//@   requires len(quicparams) <= 65536 && tp.InitialSourceConnectionID.l <= 20
+//@   unclaimed pre:ParseConnectionID@4.nopanic0 an initial_source_connection_id override longer than 20 bytes is not a representable connection ID: ParseConnectionID panics by design (configuration error, recorded as an observation)
+//@   modifies tp.*, quicparams[*], elems(uint8)
+//@ loop (tp *TransportParameters) PopulateFromUQUIC #0
+//@   invariant tp.InitialSourceConnectionID.l <= 20
+//@   modifies tp.*, quicparams[*], elems(uint8)
